@@ -27,6 +27,8 @@ type Policy struct {
 	Dup      float64       // probability a message is delivered twice
 	DelayMax time.Duration // uniform extra delay (reorders)
 	Blocked  map[[2]uint64]bool
+	// Filter, when set, is asked for every message that leaves; true = the message is lost on the way.
+	Filter func(from, to uint64, group uuid.UUID, m *raftpb.Message) bool
 }
 
 type SimNet struct {
@@ -74,6 +76,13 @@ func (s *SimNet) Heal() {
 	s.mu.Unlock()
 }
 
+// SetFilter installs (or clears, with nil) the message filter of the current policy.
+func (s *SimNet) SetFilter(f func(from, to uint64, group uuid.UUID, m *raftpb.Message) bool) {
+	s.mu.Lock()
+	s.policy.Filter = f
+	s.mu.Unlock()
+}
+
 type simClient struct {
 	net      *SimNet
 	from, to uint64
@@ -110,6 +119,9 @@ func (s *SimNet) send(from, to uint64, req *pb.RaftMessage) (*pb.EmptyMessage, e
 	p := s.policy
 	blocked := p.Blocked[[2]uint64{from, to}]
 	drop := blocked || s.rng.Float64() < p.Drop
+	if !drop && p.Filter != nil && p.Filter(from, to, group, &m) {
+		drop = true
+	}
 	// A forwarded proposal travels in exactly one unary RPC: the transport can
 	// lose or delay it, never deliver it twice (raft re-sends its own protocol
 	// messages, so those may arrive twice; a proposal delivered twice would be
